@@ -129,12 +129,14 @@ class Program:
         self.wrank = {}; self.wgp = {}
         self.pend = [set() for _ in range(self.np)]
         self.locked = {}            # key -> Slot (posted put not yet waited)
+        self.readers = {}           # key -> (gp, ranks that read it in that epoch)
         self.rlocked = {}           # key -> Slot (posted get)
         self.slots = [dict() for _ in range(self.np)]    # rank -> slot -> Slot
         self.gp = 1
         self.indep = False
         self.seed = rng.below(100000)
         self.dview = [0] * self.np  # record count each rank sees under the default driver
+        self.bbearly = 0            # records of nonblocking puts that a collective flush completed before their wait
         self.bbextra = [0] * self.np    # recdimsize pollution by cancelled iputs (known finding)
         self.lag = False            # history of finding KEY_BEGIN is live
         self.expect_keys = set()
@@ -197,6 +199,9 @@ class Program:
     def can_write(self, q, k):
         if k in self.locked or k in self.rlocked:
             return False
+        rd = self.readers.get(k)
+        if rd and rd[0] == self.gp and (rd[1] - {q}):
+            return False        # another rank reads it in this epoch (ranks are not ordered between sync points)
         if k not in self.wrank:
             return True
         if self.wrank[k] == q:
@@ -210,6 +215,14 @@ class Program:
             return False        # beyond the record count this rank knows (independent mode: agreed only by sync)
         return self.wrank[k] == q or self.wgp[k] < self.gp
 
+    def note_read(self, q, keys):
+        for k in keys:
+            rd = self.readers.get(k)
+            if rd and rd[0] == self.gp:
+                rd[1].add(q)
+            else:
+                self.readers[k] = (self.gp, {q})
+
     def commit(self, q, keys, vals):
         for k, v in zip(keys, vals):
             self.val[k] = v; self.wrank[k] = q; self.wgp[k] = self.gp; self.ever.add(k)
@@ -220,6 +233,11 @@ class Program:
             s.flushed = True
 
     def trigger(self, ranks):
+        if not self.indep:
+            for d in self.slots:
+                for sl in d.values():
+                    if sl.kind == 'put':
+                        self.bbearly = max(self.bbearly, sl.recs)
         if self.indep:
             for q in ranks:
                 self.flushed_rank(q)
@@ -349,6 +367,11 @@ class Program:
                 tmp_taken |= set(r[2])
                 reqs.append(('put', r))
         if all(k == 'zero' for k, _ in reqs):
+            return False
+        if family == 'n' and any(k == 'zero' for k, _ in reqs):
+            # a zero-length varn request is logged and replayed as an empty iput_varn whose request id is
+            # NC_REQ_NULL; ncmpio's wait(1,[NULL]) then hits the default driver's "same as ALL" shortcut (F3)
+            # when a get request is pending.  Directed case d_rounds0 covers zero-length varn entries.
             return False
         self.emit_put_group(v, reqs)
         return True
@@ -499,6 +522,7 @@ class Program:
                 w = '*' if self.np == 1 else str(q)
                 if q in per:
                     acc, p, keys = per[q]
+                    self.note_read(q, keys)
                     ln = self.emit('%s get 0 c %s' % (w, acc), kind='get', rank=q, keys=keys, p=p, lag=self.lag, exp=[self.val[k] for k in keys])
                 else:
                     st = [0] * v.nd; cnt = [0] + [1] * (v.nd - 1)
@@ -519,6 +543,7 @@ class Program:
         else:
             q = rng.choice(sorted(per))
             acc, p, keys = per[q]
+            self.note_read(q, keys)
             ln = self.emit('%d get 0 i %s' % (q, acc), kind='get', rank=q, keys=keys, p=p, lag=self.lag, exp=[self.val[k] for k in keys])
             self.groupline[(ln, q)] = ln
             self.ops.append('OGet %d [(%d%%nat, [%s])]' % (ln, q, '; '.join(coq_key(k) for k in keys)))
@@ -578,6 +603,7 @@ class Program:
         for s in gets:
             for k in s.keys:
                 self.rlocked.pop(k, None)
+            self.note_read(q, s.keys)
             del self.slots[q][s.slot]
         return recs
 
@@ -660,8 +686,7 @@ class Program:
             self.agree(); self.lag = False
         else:
             ln = self.emit('* flush 0'); self.ops.append('OFlush %d' % ln); self.stats['flush'] += 1
-        for q in range(self.np):
-            self.flushed_rank(q)
+        self.trigger(range(self.np))
         self.emit('* barrier'); self.global_point()
         return True
 
@@ -673,7 +698,8 @@ class Program:
             return False              # BB shows its own pending records early; compared after flushes only
         if not any(l == 0 for _, l in self.s.dims):
             return False              # no unlimited dimension
-        ln = self.emit('* inq_numrecs 0', kind='inq', expect=list(self.dview), extra=list(self.bbextra), lag=self.lag)
+        ln = self.emit('* inq_numrecs 0', kind='inq', expect=list(self.dview), extra=list(self.bbextra), lag=self.lag,
+                       expect_bb=[max(x, self.bbearly) for x in self.dview])
         self.ops.append('OInq %d' % ln)
         self.stats['inq'] += 1
         return True
@@ -850,6 +876,7 @@ def set_schema(p):
     """t unlimited, x = 4; v0(t,x) int record variable, v1(x) double fixed variable"""
     from .gen import Var
     p.s.fmt = 1
+    p.s.types = [1, 2, 3, 4, 5, 6]
     p.s.dims = [('t', 0), ('x', 4)]
     p.s.vars = [Var(0, 'v0', 4, [0, 1], [0, 4], True), Var(1, 'v1', 6, [1], [4], False)]
 
@@ -910,6 +937,9 @@ def d_rounds(p):
     trailing participation waits; one cancelled entry in the middle of rank 0's log"""
     set_schema(p); p.prologue()
     v0, v1 = p.s.vars
+    if p.np > 1:
+        # zero-length varn requests are logged (length-0 entries) and replayed as empty iput_varn calls
+        p.emit_put_group(v1, [('put', p.fixed_put(0, v1, [3], [1], form='varn'))] + [('zero', p.zero_put(v1, 'n'))] * (p.np - 1))
     ss = []
     for i in range(5):
         ss.append(p.emit_iput(0, v0, p.fixed_put(0, v0, [i, 0], [1, 1 + i % 4]), p.free_slot(0)))
@@ -940,6 +970,7 @@ def d_retain(p):
     p.reopen()
     p.emit_put_group(v0, [('put', p.fixed_put(q, v0, [2 * p.np + q, 0], [1, 3])) for q in range(p.np)])
     p.get_lines(list(range(p.np)), v=v0)
+    p.op_flush()
     p.emit_put_group(v0, [('put', p.fixed_put(q, v0, [q, 0], [1, 2])) for q in range(p.np)])
     p.close()
 
